@@ -204,18 +204,35 @@ def check(ctx):
             elif isinstance(n, ast.Expr) and isinstance(n.value, ast.Call) and isinstance(n.value.func, ast.Attribute) and n.value.func.attr in ("scatter_", "write", "writerange"):
                 writes.append((n.value.func.attr, n))
     ctx.require("C02.d", "storage writes in insert", len(writes), 6)
+    def _pair_in_order(e):
+        names = [x.id for x in walk_ordered(e) if isinstance(x, ast.Name) and x.id in ("prev_exobs", "next_exobs")]
+        return names == ["prev_exobs", "next_exobs"]
+
+    def _cast(e):
+        return any(isinstance(c, ast.Call) and isinstance(c.func, ast.Attribute) and c.func.attr == "to" and
+                   any(k.arg == "dtype" and ast.unparse(k.value) == "data.dtype" for k in c.keywords) for c in ast.walk(e))
     for kind, n in writes:
         t = ast.unparse(n)
-        if kind == "assign":
-            ok = t.startswith("self.__data = torch.scatter(data, 0, stacked_idx, torch.cat((prev_exobs, next_exobs), 0).to(dtype=data.dtype))")
-        elif kind == "scatter_":
-            ok = t.startswith("data.scatter_(0, stacked_idx, torch.cat((prev_exobs, next_exobs), 0).to(dtype=data.dtype))")
+        if kind in ("assign", "scatter_"):
+            c = n.value if kind == "scatter_" else n.value
+            ok = isinstance(c, ast.Call) and (dotted(c.func) in ("torch.scatter", "data.scatter_"))
+            if ok:
+                a = c.args[1:] if dotted(c.func) == "torch.scatter" else c.args
+                ok = (dotted(c.func) != "torch.scatter" or (isinstance(c.args[0], ast.Name) and c.args[0].id == "data")) and len(a) == 3 \
+                    and isinstance(a[0], ast.Constant) and a[0].value == 0 and isinstance(a[1], ast.Name) and a[1].id == "stacked_idx" \
+                    and _pair_in_order(a[2]) and _cast(a[2])
         elif kind == "index":
-            ok = t in ("data[prev_idx, ...] = prev_exobs", "data[next_idx, ...] = next_exobs")
+            ix = n.targets[0].slice.elts[0] if isinstance(n.targets[0].slice, ast.Tuple) else n.targets[0].slice
+            ok = isinstance(ix, ast.Name) and isinstance(n.value, ast.Name) and (ix.id, n.value.id) in (("prev_idx", "prev_exobs"), ("next_idx", "next_exobs"))
         elif kind == "write":
-            ok = t == "self.write(obs, offset + round(shift), inplace=inplace)"
+            c = n.value
+            ok = dotted(c.func) == "self.write" and isinstance(c.args[0], ast.Name) and c.args[0].id == "obs" and "round(shift)" in ast.unparse(c.args[1]) \
+                and dotted(kwarg(c, "inplace", 2)) == "inplace"
         else:
-            ok = t == "self.writerange(torch.stack((prev_exobs, next_exobs), -1).to(dtype=data.dtype), math.ceil(offset), forward=True, inplace=False)"
+            c = n.value
+            fwd = kwarg(c, "forward", 2)
+            ok = dotted(c.func) == "self.writerange" and _pair_in_order(c.args[0]) and _cast(c.args[0]) and ast.unparse(c.args[1]) == "math.ceil(offset)" \
+                and isinstance(fwd, ast.Constant) and fwd.value is True
         ctx.ob("C02.d", f"RecordTensor.insert: write `{t[:60]}` touches only the prev / next slots", ok,
                "" if ok else "this write is not one of: scatter at (prev, next), data[prev_idx], data[next_idx], write(), forward writerange of the (prev, next) pair at ceil(offset)",
                P.loc(ins, n), n)
